@@ -105,10 +105,10 @@ def scaled(a):
     return [[int(round(float(v) * SCALE)) for v in row] for row in numpy.asarray(a, dtype=float).reshape(len(a), -1)]
 
 
-def geometry_table(topo, geom):
+def geometry_table(topo, geom, arguments=None):
     """exact affine geometry of every element of topo (raises Skip if not affine / not dyadic)"""
     smp = topo.sample('bezier', 2)
-    x = numpy.asarray(smp.eval(geom))
+    x = numpy.asarray(smp.eval(geom, arguments=arguments))
     table = []
     for i in range(len(topo)):
         pts = numpy.asarray(smp.points[i].coords, dtype=float)
@@ -292,9 +292,9 @@ def local_points(refdims, rng):
     return p
 
 
-def locate_case(name, topo, geom, rng, outside, kwargs, ntargets=6):
+def locate_case(name, topo, geom, rng, outside, kwargs, ntargets=6, arguments=None):
     from nutils import topology
-    table = geometry_table(topo, geom)
+    table = geometry_table(topo, geom, arguments)
     refs = [ref_to_dims(r) for r in topo.references]
     targets = []
     seen = set()
@@ -317,11 +317,11 @@ def locate_case(name, topo, geom, rng, outside, kwargs, ntargets=6):
     case = dict(kind='locate', name=name, geomtab=table, refs=refs, targets=scaled(targets), tol=int(round(tolv * SCALE)),
                 raised=False, allinside=not outside, res=[], kwargs={k: float(v) for k, v in kwargs.items()})
     try:
-        smp = topo.locate(geom, targets, **kwargs)
+        smp = topo.locate(geom, targets, arguments=arguments, **kwargs)
     except topology.LocateError:
         case['raised'] = True
         return case
-    idx, p, x = smp.eval([topo.f_index, topo.f_coords, geom])
+    idx, p, x = smp.eval([topo.f_index, topo.f_coords, geom], arguments=arguments)
     case['res'] = [dict(i=int(i), p=scaled([pp])[0], x=scaled([xx])[0]) for i, pp, xx in zip(numpy.asarray(idx), numpy.asarray(p), numpy.asarray(x))]
     return case
 
@@ -353,6 +353,44 @@ def locate_cases(rep, rng):
                         rep.skip('locate: ' + str(e))
                     except Exception as e:
                         fails.append(('locate:raises-{}'.format(type(e).__name__), 'locate on {} raised {!r}'.format(full, e), dict(name=full)))
+    return cases, fails
+
+
+# the argument values of spec/Locate.tla (ArgVals(2): scale in units of 1/2, offset in 1/128, shear in 1/2); c11.run checks
+# that the 2-D behaviours TLC emits use exactly these maps
+ARGVALS_2D = [dict(s=[2, 2], o=[0, 0], k=0), dict(s=[4, 4], o=[-64, -32], k=0), dict(s=[2, 2], o=[32, 0], k=0), dict(s=[-2, 2], o=[384, 0], k=0),
+              dict(s=[2, 2], o=[0, 0], k=1), dict(s=[4, 2], o=[-64, 32], k=1)]
+
+
+def locate_history_cases(rep, rng):
+    """histories of the Locate model (one topology object, one argument dependent geometry object, a sequence of argument
+    values) on simplex and mixed meshes: the generic search; every call is a "locate" case judged by TraceTopo with the
+    element geometries evaluated at the arguments of that call"""
+    from nutils import mesh, function
+    cases, fails = [], []
+    nhist = 2 if rep.tier == 'quick' else 12
+    for n in range(nhist):
+        for et in ('triangle', 'mixed'):
+            topo, g = mesh.unitsquare(2, et)
+            name = et
+            if n % 3 == 1:
+                topo, name = topo.refined_by([0, 3]), et + '.hier'
+            elif n % 3 == 2:
+                topo, name = topo.take([0, 1, 3]), et + '.take'
+            stretch, shift, shear = function.Argument('stretch', (2,)), function.Argument('shift', (2,)), function.Argument('shear', ())
+            y = g * stretch + shift
+            geom = numpy.stack([y[0] + shear * y[1], y[1]])
+            for k in range(3):
+                m = rng.choice(ARGVALS_2D)
+                arguments = dict(stretch=numpy.array(m['s']) / 2, shift=numpy.array(m['o']) / 128, shear=numpy.array(m['k'] / 2))
+                outside = rng.random() < .25
+                full = 'history{}:{}:call{}:s={},o={},k={}:{}'.format(n, name, k, m['s'], m['o'], m['k'], 'outside' if outside else 'inside')
+                try:
+                    cases.append(locate_case(full, topo, geom, rng, outside, dict(tol=2 ** -6) if k % 2 == 0 else dict(eps=2 ** -20), ntargets=4, arguments=arguments))
+                except Skip as e:
+                    rep.skip('locate: ' + str(e))
+                except Exception as e:
+                    fails.append(('locate:raises-{}'.format(type(e).__name__), 'locate on {} raised {!r}'.format(full, e), dict(name=full)))
     return cases, fails
 
 
